@@ -49,6 +49,7 @@ type TypeRef struct {
 	List   bool   `json:"list"`
 	NN     bool   `json:"nn"`  // the field (or the list) is non-null
 	ElemNN bool   `json:"enn"` // list elements are non-null
+	List2  bool   `json:"list2"` // a list of lists: [[T]] (the inner lists are nullable)
 }
 
 func (t TypeRef) String() string {
@@ -58,6 +59,9 @@ func (t TypeRef) String() string {
 			s += "!"
 		}
 		s = "[" + s + "]"
+		if t.List2 {
+			s = "[" + s + "]"
+		}
 	}
 	if t.NN {
 		s += "!"
